@@ -12,31 +12,31 @@ CHECKS = {
    text="Every corpus face libharfbuzz opens x every string up to the tier's length over its font-derived alphabet, the script packs and the normalisation pack x directions, per-axis min/max variations, global/ranged/optional features (through one reused feature array), cluster levels and flags: harfbuzz.Buffer.Shape compared field by field with hb_shape of the system libharfbuzz 6.0.0 (cgo) on the same bytes. Domain D is defined by 11 rules (DESIGN.md C05): cmap-layer differences (C10/C11), Graphite fonts, growth-limit outputs, bitmap-only and COLR fonts, Arabic fallback shaping, vertical runs without vmtx, active FeatureVariations, USE scripts, mapped SOFT HYPHEN, FFTM-era Amiri.",
    note="The reference is HarfBuzz 6.0.0 while the port follows a later upstream: agreement is claimed on D only, where go-text == 6.0.0 on the whole enumeration of the unchanged tree; rules R7, R9, R12 are unresolved classes (R11 was resolved by fix cba4f71) (version drift or port defect could not be told apart in the sandbox). Built as a cgo variant of the check binary; setup fails loudly if it cannot link.",
    technique="bounded exhaustive differential enumeration against a live reference implementation (E1)",
-   design="1/C05", engine="E1 enum"),
+   design="1/C05 and 6.5", engine="E1 enum"),
  "C10": dict(
    level="exploration",
    text="Every face of the 738 corpus files x every glyph id (quick: at most 2000 per face of files over 1 MB) x {default instance, all-min, all-max, outside the axis range, interior point, per-axis min/max/60% points}: Upem, every rune of the character map (NominalGlyph), horizontal/vertical advances, GlyphExtents, normalised coordinates and the outline segments of GlyphData (glyf incl. gvar, CFF, CFF2 incl. blend) compared with the font functions and draw callbacks of the system libharfbuzz 6.0.0 (cgo); and at the default instance units-per-em, advances and TrueType/CFF outlines compared with golang.org/x/image/font/sfnt at ppem = upem.",
    note="Tolerances and domain rules (DESIGN.md C10): extents of variable instances +-1 unit (rounding of the far edge changed between HarfBuzz releases); x/image rounds transformed component points to whole units (tolerance max(4, upem/128) units for glyf, 8 units for CFF) and overflows its 32-bit fixed point for |coordinate| x ppem >= 2^31 (skipped, counted); the glyf outline is shifted by lsb - xMin like HarfBuzz/FreeType (accepted against x/image only when it lands on the XBearing of GlyphExtents or equals the libharfbuzz drawing); faces with both glyf and CFF, bitmap/colour/SVG glyph data are not compared for extents/outlines. Built as the cgo variant of the check binary.",
    technique="bounded exhaustive differential enumeration (every glyph of every corpus face x corner design coordinates) against two live reference decoders (E1)",
-   design="1/C10", engine="E1 enum"),
+   design="1/C10 and 6.5", engine="E1 enum"),
  "C18": dict(
    level="exploration",
    text="Every corpus face without AAT substitution (672) x {rule witnesses: the rune sequences spelling every ligature, context / chained-context rule (3 formats, incl. rules without nested lookups), reverse chaining rule, kerning pair per value-record signature (incl. device/variation-only records), cursive and mark attachment of the face's own GSUB/GPOS lookups and kern pairs, alone and embedded in neutral context; every string up to the tier's length over the font-derived alphabet and the script packs} x {native, opposite direction} x cluster levels 0/1 x {no feature, liga off, kern off, first optional feature} x {default instance, per-axis max/min}. For every shaped result every subset of the safe boundaries (<= 3 boundaries; else every single cut + all cuts): pieces shaped through Buffer.AddRunes(text, start, len) with Bot/Eot cleared at interior ends, concatenated in visual order, compared glyph by glyph (id, cluster, advances, offsets) with the whole-text result; defined glyph flags uniform per cluster.",
    note="8 known findings (known_findings.jsonl): non-native directions per complex shaper and three classes of Indic broken/decomposable sequences, all with identical whole/piece results in libharfbuzz 6.0.0 (cmd/hbcut), i.e. behaviour of the reference shaper that C05 requires. Violation keys carry shaper class, native/non-native direction and the lookup type of the witness, so other violations are still reported. Witnesses per lookup and pairs per signature are capped per tier (counted in the evidence).",
    technique="bounded exhaustive enumeration of inputs (rule-witness quotient of the font's own lookups + alphabets) x configurations x every safe cut set, differential oracle whole vs pieces (E1)",
-   design="1/C18", engine="E1 enum"),
+   design="1/C18 and 6.8", engine="E1 enum"),
  "C09": dict(
    level="fault_enumeration",
    text="Single-fault enumeration on every corpus file (738; sfnt, TTC, WOFF, dfont): every byte x {v+1, v-1, 0, 0xFF, sign flip, 0x20}, every 16-bit aligned field x {0, 1, 0x7FFF, 0x8000, 0xFFFF, v-1, v+1, len(file), len(table)}, every 32-bit aligned field x {0, 1, 0x7FFFFFFF, 0xFFFFFFFF, len(file)-1, len(file), offsets of other tables}, every prefix (truncation), every pair of directory entries swapped - over the whole file for files up to the tier's bound (thorough 8 KiB), else over the container header, table directory, the head of every table and every small table. Each faulted file goes through opentype.NewLoaders, NewFont and the whole query surface (character map, advances, origins, extents, outline/bitmap/SVG data, names, metrics, variations, ppem) and HarfbuzzShaper.Shape in several directions, in journalled worker processes under RLIMIT_AS.",
    note="Oracle: no panic (keyed by the innermost repository frame), no hang (120 s watchdog), no stack overflow / worker death, bytes allocated per case <= 64 MiB + 256 x len(file) (runtime/metrics; also enforced while the case runs by a monitor that ends the worker). 34 defects repaired by fix: commits (known_findings.jsonl); one known finding: eager decoding of overlapping GSUB/GPOS lists (allocation amplification), needs a decoding budget in the generated readers. Time proportionality is only judged by the watchdog. Coverage-guided random mutation named by the property is sampling and not part of this check.",
    technique="exhaustive single-fault enumeration (field values, truncation points, directory swaps) over valid files with a totality and allocation-law oracle (E4)",
-   design="1/C09", engine="E4 fault"),
+   design="1/C09 and 6.6", engine="E4 fault"),
  "C17": dict(
    level="model_checking",
    text="Explicit-state exploration of thread interleavings at operation granularity on the real objects: 7 shared *font.Font (glyf+gvar, CFF2 variable, CFF, morx, colour bitmap, GSUB/GPOS, HVAR variable) x every pair of 2-operation thread programs and every triple of 1-operation programs over 9 colliding operations (NewFace+metrics, cmap, glyph queries, SetVariations+queries, HarfbuzzShaper.Shape, Buffer.Shape, FontMap+Segmenter.Split, ppem+GlyphData, Describe+segmenter) x every interleaving. After every transition the deep hash (unexported fields, full slice capacity, maps) of the shared font and of the package-level variables is compared with the one before; every result is compared with the solo run of the same thread program. In the solo runs all 289 package-level variables of the 12 repository packages (listed from source at build time by tools/c17gen through a build overlay) are hashed around every operation.",
    note="The repository has one synchronisation primitive (a sync.Once in fontscan): any write to a shared root is therefore a data race by definition, which is what the monitor decides exhaustively over the explored operation sequences. Interleavings inside an operation are not explored; the free-running -race pass (64 goroutines, same operations, plus concurrent UseSystemFonts on a scratch directory for the sync.Once) is the complementary, sampling detector and is reported as such in the evidence. Needs tools/c17gen + -overlay (run.sh does it); if the -race build is unavailable the pass is skipped and counted.",
    technique="explicit-state exploration of operation interleavings on the real objects with a write monitor over the shared roots and a differential (solo run) oracle (E3); free-running race detector pass as a non-exhaustive complement",
-   design="1/C17", engine="E3 sched"),
+   design="1/C17 and 6.7", engine="E3 sched"),
  "C01": dict(
    level="exploration",
    text="Every corpus face (752) x every string up to the tier's length over its font-derived alphabet and the script packs it covers x {6 directions, every sub-run with context, out-of-contract bounds, 8 script tags, sizes, features, language} through shaping.Shape and x {7 flag values x 3 cluster levels x 2 directions} through harfbuzz.Buffer.Shape; totality (panic, hang, memory attributed to the journalled case), output budget, reported range, cluster membership/monotonicity/count laws.",
@@ -155,7 +155,7 @@ def main():
       "engines": [
         {"name": "E1 enum", "path": "/verif/mc", "serves_properties": [p for p in ALL if CHECKS.get(p, {}).get("engine") == "E1 enum"], "kind_free_text": "bounded exhaustive input enumerator over quotient alphabets, sharded over journalled worker processes"},
         {"name": "E2 hist", "path": "/verif/mc", "serves_properties": [p for p in ALL if CHECKS.get(p, {}).get("engine") == "E2 hist"], "kind_free_text": "explicit-state BFS over operation histories on the real objects, state = canonical deep hash"},
-        {"name": "E3 sched", "path": "/verif/mc", "serves_properties": [p for p in ALL if CHECKS.get(p, {}).get("engine") == "E3 sched"], "kind_free_text": "stateless schedule explorer with iterative preemption bounding under a cooperative scheduler"},
+        {"name": "E3 sched", "path": "/verif/mc", "serves_properties": [p for p in ALL if CHECKS.get(p, {}).get("engine") == "E3 sched"], "kind_free_text": "explicit-state explorer of thread interleavings at operation granularity on the real objects, with a deep-hash write monitor over the shared roots (fonts and every package-level variable) and a solo-run oracle; free-running -race pass as a sampling complement (the statement-level cooperative scheduler of the plan was not built, DESIGN.md 6.7)"},
         {"name": "E4 fault", "path": "/verif/mc", "serves_properties": [p for p in ALL if CHECKS.get(p, {}).get("engine") == "E4 fault"], "kind_free_text": "single-fault / crash-point enumerator over files"},
       ],
       "checks": checks,
